@@ -13,7 +13,7 @@ from annet.vendors import registry_connector
 HW_STUB = {
     "cisco": "Cisco Catalyst", "nexus": "Cisco Nexus", "asr": "Cisco ASR", "iosxr": "Cisco XR", "huawei": "Huawei",
     "huawei ce": "Huawei CE0000", "juniper": "Juniper", "routeros": "RouterOS", "aruba": "Aruba", "arista": "Arista",
-    "nokia": "Nokia", "pc": "PC", "ribbon": "Ribbon", "optixtrans": "Huawei DC", "b4com": "B4com", "h3c": "H3C",
+    "nokia": "Nokia", "pc": "PC", "ribbon": "Ribbon", "optixtrans": "Huawei OptiXtrans DC908", "b4com": "B4com", "h3c": "H3C",
 }
 
 
